@@ -49,6 +49,7 @@ type c08MetricCase struct {
 	Now     int64         `json:"now"`
 	Max     int           `json:"max"`
 	Entries []c08MetricIn `json:"entries"`
+	Merge   bool          `json:"merge"` // encode a fresh table into which this one was carried over (MergeFailed)
 }
 
 type c08MetricEntryObs struct {
@@ -94,8 +95,13 @@ func c08Metric(t *testing.T, c c08MetricCase) c08MetricObs {
 		}
 		mt.AddRaw(nil, string(c08unhex(t, e.Name)), string(c08unhex(t, e.Scope)), d, force)
 	}
+	if c.Merge {
+		next := NewMetricTable(c.Max, time.Unix(c.Start+60, 0))
+		next.MergeFailed(mt)
+		mt = next
+	}
 	o := c08MetricObs{Count: mt.count,
-		T0: c08hex(strconv.AppendInt(nil, c.Start, 10)), T1: c08hex(strconv.AppendInt(nil, c.Now, 10))}
+		T0: c08hex(strconv.AppendInt(nil, mt.metricPeriodStart.Unix(), 10)), T1: c08hex(strconv.AppendInt(nil, c.Now, 10))}
 	for name, scopes := range mt.metrics {
 		for scope, m := range scopes {
 			cd := m.data.collectorData()
@@ -123,6 +129,7 @@ type c08EventCase struct {
 	ID     string       `json:"id"`
 	Events []c08EventIn `json:"events"`
 	Split  bool         `json:"split"`
+	Merge  bool         `json:"merge"`  // encode a fresh reservoir into which this one was carried over (MergeFailed)
 	Labels [][2]string  `json:"labels"` // log only: (type, value) hex
 }
 
@@ -197,6 +204,11 @@ func c08Event(t *testing.T, c c08EventCase) []c08EventObs {
 		lj, err := json.Marshal(lm)
 		o.Labels = c08hexp(lj, err)
 		return []c08EventObs{o}
+	}
+	if c.Merge {
+		next := newAnalyticsEvents(c.Cap)
+		next.MergeFailed(ev)
+		ev = next
 	}
 	if c.Split {
 		e1, e2 := ev.Split()
